@@ -229,6 +229,24 @@ func runEmbed(c *vf.Check, g *groups.G, part int) {
 					}
 				}
 				check("the embedded point", p)
+				// adversarial streams: the random part of the candidate all ones / all zeros (candidates at and beyond
+				// the field modulus, first candidates rejected)
+				for pi, pre := range [][]byte{bytes.Repeat([]byte{0xff}, g.Group.PointLen()+8), make([]byte, g.Group.PointLen()+8)} {
+					st := &alpha.PrefixStream{Prefix: append([]byte{}, pre...), Next: alpha.Stream("c17-embed-adv-" + id)}
+					p2 := g.Gen().Clone().Embed(append([]byte{}, in...), st) // (non-nil also when empty: nil means "no data")
+					c.Eval(1)
+					if why := inGroup(g, p2); why != "" {
+						x.Failf(pk+"/non-member", "%s with stream prefix #%d: result is not a group member: %s", id, pi, why)
+						return
+					}
+					check(fmt.Sprintf("the point embedded under stream prefix #%d (0xff.. / 0x00..)", pi), p2)
+					r2 := g.Point()
+					if err := r2.UnmarshalBinary(fmod.Enc(p2)); err != nil {
+						x.Failf(pk+"/decode", "%s with stream prefix #%d: encoding of the embedded point does not decode: %v", id, pi, err)
+						return
+					}
+					check(fmt.Sprintf("decode(encode(P)) under stream prefix #%d", pi), r2)
+				}
 				r := g.Point()
 				if err := r.UnmarshalBinary(fmod.Enc(p)); err != nil {
 					x.Failf(pk+"/decode", "%s: encoding of the embedded point does not decode: %v", id, err)
